@@ -69,4 +69,44 @@ CHECKS = {
              "reach": {"VerifH_C20_Mux": ["served"], "VerifH_C20_Async": ["async-ran"]}},
         ],
     },
+    "C02": {
+        "groups": [
+            {"name": "c02-sys", "files": ["h_sys.go"], "harnesses": ["VerifH_SYS_C02"], "concurrent": True,
+             "flags": {"quick": [P(nreq=1, faults=1)], "thorough": [P(nreq=2, faults=2)]},
+             "reach": {"VerifH_SYS_C02": ["quiescent", "pubcomp-read"]}},
+            {"name": "u-retry", "files": ["h_retry.go"], "harnesses": ["VerifH_Retry_Pass"],
+             "flags": {"quick": [P(maxqueue=4)], "thorough": [P(maxqueue=6)]},
+             "reach": {"VerifH_Retry_Pass": ["pass-done", "failed-entry"]}},
+        ],
+    },
+    "C01": {
+        "groups": [
+            {"name": "c01-sys", "files": ["h_sys.go"], "harnesses": ["VerifH_SYS_C01"], "concurrent": True,
+             "flags": {"quick": [P(nreq=2, faults=1)], "thorough": [P(nreq=2, faults=2, connectfaults=1, dialfaults=1)]},
+             "reach": {"VerifH_SYS_C01": ["quiescent"]}},
+            {"name": "u-retry", "files": ["h_retry.go"], "harnesses": ["VerifH_Retry_Pass"],
+             "flags": {"quick": [P(maxqueue=4)], "thorough": [P(maxqueue=6)]},
+             "reach": {"VerifH_Retry_Pass": ["pass-done", "failed-entry"]}},
+        ],
+    },
+    "C03": {
+        "groups": [
+            {"name": "c03-sys", "files": ["h_sys.go"], "harnesses": ["VerifH_SYS_C03"], "concurrent": True,
+             "flags": {"quick": [P(nreq=2, faults=1)], "thorough": [P(nreq=3, faults=2)]},
+             "reach": {"VerifH_SYS_C03": ["quiescent"]}},
+            {"name": "u-retry", "files": ["h_retry.go"], "harnesses": ["VerifH_Retry_Pass"],
+             "flags": {"quick": [P(maxqueue=4)], "thorough": [P(maxqueue=6)]},
+             "reach": {"VerifH_Retry_Pass": ["pass-done", "failed-entry"]}},
+        ],
+    },
+    "C12": {
+        "groups": [
+            {"name": "c12-sys", "files": ["h_sys.go"], "harnesses": ["VerifH_SYS_C12"], "concurrent": True,
+             "flags": {"quick": [P(nreq=2, faults=1)], "thorough": [P(nreq=2, faults=2)]},
+             "reach": {"VerifH_SYS_C12": ["quiescent", "retransmission"]}},
+            {"name": "u-retry", "files": ["h_retry.go"], "harnesses": ["VerifH_Retry_Pass"],
+             "flags": {"quick": [P(maxqueue=4)], "thorough": [P(maxqueue=6)]},
+             "reach": {"VerifH_Retry_Pass": ["pass-done", "failed-entry"]}},
+        ],
+    },
 }
